@@ -6,6 +6,7 @@ package main
 import (
 	"go/types"
 	"path/filepath"
+	"regexp"
 	"strings"
 )
 
@@ -157,5 +158,69 @@ func init() {
 		ext["path/filepath.Base"] = bridge(filepath.Base)
 		_ = strings.TrimSpace
 		_ = types.Typ
+	})
+}
+
+func init() {
+	extraRegs = append(extraRegs, func() {
+		mk := func(fr *frame, pat string) (value, error) {
+			re, err := regexp.Compile(pat)
+			if err != nil {
+				return (*value)(nil), err
+			}
+			p := fr.i.p
+			if p.regexps == nil {
+				p.regexps = map[*value]*regexp.Regexp{}
+			}
+			pkg := fr.i.prog.ImportedPackage("regexp")
+			cell := zero(pkg.Type("Regexp").Type())
+			c := &cell
+			p.regexps[c] = re
+			return c, nil
+		}
+		get := func(fr *frame, v value) *regexp.Regexp {
+			re := fr.i.p.regexps[v.(*value)]
+			if re == nil {
+				panic(unsupported("regexp not created through the model"))
+			}
+			return re
+		}
+		externals["regexp.MustCompile"] = func(fr *frame, args []value) value {
+			c, err := mk(fr, args[0].(string))
+			if err != nil {
+				panic(targetPanic{iface{nil, err.Error()}})
+			}
+			return c
+		}
+		externals["regexp.Compile"] = func(fr *frame, args []value) value {
+			c, err := mk(fr, args[0].(string))
+			if err != nil {
+				return tuple{c, fr.i.makeError(err.Error())}
+			}
+			return tuple{c, iface{}}
+		}
+		externals["(*regexp.Regexp).MatchString"] = func(fr *frame, args []value) value {
+			return get(fr, args[0]).MatchString(args[1].(string))
+		}
+		externals["(*regexp.Regexp).Match"] = func(fr *frame, args []value) value {
+			return get(fr, args[0]).Match(valuesToBytes(args[1].([]value)))
+		}
+		externals["(*regexp.Regexp).FindString"] = func(fr *frame, args []value) value {
+			return get(fr, args[0]).FindString(args[1].(string))
+		}
+		externals["(*regexp.Regexp).ReplaceAllString"] = func(fr *frame, args []value) value {
+			return get(fr, args[0]).ReplaceAllString(args[1].(string), args[2].(string))
+		}
+		externals["(*regexp.Regexp).FindStringSubmatch"] = func(fr *frame, args []value) value {
+			ss := get(fr, args[0]).FindStringSubmatch(args[1].(string))
+			if ss == nil {
+				return []value(nil)
+			}
+			out := make([]value, len(ss))
+			for i := range ss {
+				out[i] = ss[i]
+			}
+			return out
+		}
 	})
 }
